@@ -23,6 +23,9 @@ import (
 	"github.com/avfs/avfs"
 )
 
+// maxFileSize is the maximum size of a file: the Go runtime can't allocate a larger slice.
+const maxFileSize = 1 << 47
+
 // OrefaFS implements a memory file system using the avfs.VFS interface.
 type OrefaFS struct {
 	nodes           nodes        // nodes is the map of nodes (files or directories) where the key is the absolute path.
